@@ -49,7 +49,8 @@ def run(ctx):
         pe = roles(ctx, v).process_event
         g = cfg_of(pe.node)
         sel = self_calls_in(pe, "_select_transitions")
-        c.floor("R2", f"selection call in {pe.short}", len(sel), 1)
+        if not c.expect("R2", f"selection call in {pe.short}", len(sel), 1, pe, f"{pe.short} no longer calls _select_transitions: no transition is nominated for any event"):
+            continue
         sel_nodes = [n for s in sel for n in cfg_node_of(pe, s)]
         sel_stmt = g.nodes[sel_nodes[0]].ast
         var = sel_stmt.targets[0].id if isinstance(sel_stmt, ast.Assign) and isinstance(sel_stmt.targets[0], ast.Name) else None
@@ -60,7 +61,7 @@ def run(ctx):
                 at = guards_at(pe, n.ast)
                 if any(isinstance(a, ast.Name) and a.id == var and not pol for a, pol in at):
                     rets.append(n.id)
-        c.floor("R2", f"empty-selection return in {pe.short}", len(rets), 1)
+        c.expect("R2", f"empty-selection return in {pe.short}", len(rets), 1, pe, f"{pe.short} has no early return for an empty selection any more: an event with no nominee runs on into the transition machinery (notifications, settle, history) instead of being a no-op")
         for rn in rets:
             between = g.reachable_from_succ(sel_nodes[0], follow_exc=False)
             back = {n.id for n in g.nodes if g.can_reach(n.id, rn, follow_exc=False)}
@@ -82,7 +83,7 @@ def run(ctx):
         r = roles(ctx, v)
         pe = r.process_event
         calls = [s for s in res.callsites(pe, v) if any(t.qualname == r.dispatch.qualname for t in s.targets)]
-        c.floor("R3", f"dispatch call in {pe.short}", len(calls), 1)
+        c.expect("R3", f"dispatch call in {pe.short}", len(calls), 1, pe, f"{pe.short} no longer hands the selected transitions to {r.dispatch.short}: nominated transitions do not fire")
         for s in calls:
             ok = False
             for a, pol in guards_at(pe, s.call):
@@ -150,12 +151,12 @@ def run(ctx):
                      f"memo '{tgt.value.id}' stores the verdict of '{stmt_text(x.value, 60)}' under the key '{norm(kexpr)}', which is not the identity of "
                      f"the transition/guard that was evaluated: two different guards can share one slot within a selection pass, so a candidate "
                      f"whose own guard is false can be nominated (and an enabled one skipped)", x)
-    c.floor("R6", "memoised guard evaluations in the selection closure", n_memo, 1)
+    c.ob("R6", True, "selection closure", "memo-sites", f"{n_memo} memoised guard evaluation(s) examined (none is fine: every candidate is then evaluated directly)", None, nontrivial=False)
     # ---- R7 a transition shared by several regions is selected once ---------------------
     sel = roles(ctx, "Interpreter").select
     apps = [x for x in own_nodes(sel.node) if isinstance(x, ast.Call) and isinstance(x.func, ast.Attribute) and x.func.attr == "append"
             and dotted(x.func.value) == "selected"]
-    c.floor("R7", "appends to the selection list", len(apps), 1)
+    c.expect("R7", "appends to the selection list", len(apps), 1, sel, "the winner of a leaf is no longer appended to the selection: nominated transitions never fire")
     for x in apps:
         ok = False
         for a, pol in guards_at(sel, x):
